@@ -159,6 +159,18 @@ def run(ctx):
             frames = frames[:rng.randrange(1, 7)]
             if not greeted and rng.random() < 0.5:
                 frames = [f for f in base_traffic(rng, tree, keys, cr, rn.lp.nonce) if f[0] == "hello"][:1] + frames
+            elif not greeted and not any(f[0] == "hello" for f in frames):
+                # out of protocol order: a perfectly valid new block (or a valid spend) ahead of any greeting; on a greeted
+                # connection it would be adopted and relayed, here the connection must be refused and nothing may change
+                head_ = rn.cm.coinstate.current_chain_hash
+                hb_ = rn.cm.coinstate.block_by_hash[head_]
+                vb = chain.mine(rn.cm.coinstate, head_, [], keys.pk(0), hb_.timestamp + 7)
+                extra = [("data_valid_block_before_greeting", fr(DataMessage(DATA_BLOCK, vb), rng))]
+                t_ = tree.random_tx(head_) if head_ in tree.own else None
+                if t_ is not None and rng.random() < 0.5:
+                    extra = [("data_valid_tx_before_greeting", fr(DataMessage(DATA_TRANSACTION, t_), rng))]
+                frames = extra + frames
+                res.count("valid_data_before_greeting")
             if rng.random() < 0.25:
                 kind, data = "uncorrupted", b"".join(f for _, f in frames)
             else:
